@@ -44,8 +44,8 @@ def faults_for(spec):
             ("set_value_state", 0), ("set_initial_param", 0) if spec["params"] else None,
             ("set_initial_foreign", 0), ("bad_grid_subject_to", 0), ("bad_grid_sample", 0),
             ("foreign_rhs", 0), ("foreign_constraint", 0), ("foreign_objective", 0), ("constant_false", 0)]
-    for pos in (1, 2, 3):
-        out.append(("bad_grid_subject_to", pos))       # other spellings of an unknown grid name
+    for pos in (1, 2, 3, 4, 5):
+        out.append(("bad_grid_subject_to", pos))       # other spellings of an unknown grid name; boundary constraints
     out.append(("bad_grid_sample", 1))
     if spec["T"]["kind"] == "num" and spec["t0"]["kind"] == "num":
         for pos in (1, 2, 3, 4):
@@ -188,7 +188,12 @@ def build_faulty(spec, fault, pos, substage=False):
             else:
                 st.subject_to(st.t0 + st.T == t0v + Tv + 1.0)
     if fault == "bad_grid_subject_to":
-        st.subject_to(x0el <= 100, grid=["controls", "Control", "INF", "Integrator"][pos])
+        if pos <= 3:
+            st.subject_to(x0el <= 100, grid=["controls", "Control", "INF", "Integrator"][pos])
+        elif pos == 4:
+            st.subject_to(st.at_t0(x0el) <= 100, grid="controls")       # boundary constraints with an unknown grid name
+        else:
+            st.subject_to(st.at_tf(x0el) >= -100, grid="Control")
     build.declare_objective(b)
     if fault == "signal_objective":
         st.add_objective(x0el * 2)
@@ -291,6 +296,8 @@ def attempt(make, fault):
                 target, sym = sym
             if fault == "bad_grid_sample":
                 target.sample(sym, grid=GRID_SAMPLE[0])
+            elif fault == "no_method" and target is not ocp:
+                pass        # a stage without a method: the user goes straight to ocp.solve(), which must refuse
             else:
                 target.sample(sym, grid="control")
             ocp.solve()
